@@ -59,6 +59,9 @@ class Fresh:
                 return True
             if isinstance(e.func, ast.Attribute) and nm in DERIVING_ATTRS:
                 return self.fresh(e.func.value, at, depth - 1)
+            if isinstance(e.func, ast.Attribute) and nm in ("insert_arg",):
+                # creates and returns a new argument of the receiver
+                return self.fresh(e.func.value, at, depth - 1)
             if nm in ("tuple", "list", "reversed", "iter") and e.args:
                 return self.fresh(e.args[0], at, depth - 1)
             return False
@@ -67,7 +70,9 @@ class Fresh:
         if isinstance(e, ast.Subscript):
             return self.fresh(e.value, at, depth - 1)
         if isinstance(e, (ast.GeneratorExp, ast.ListComp)):
-            # elements produced by walking fresh containers
+            # elements produced by walking fresh containers, or every element built by a creating call
+            if isinstance(e.elt, ast.Call) and self.fresh(e.elt, at, depth - 1):
+                return True
             env_ok = self.fresh(e.generators[0].iter, at, depth - 1)
             return env_ok
         if isinstance(e, ast.Name):
@@ -255,14 +260,15 @@ def check(idx: Index, rep: Report, tier: str) -> str:
     cfg = CFG(f.node)
     bm_stores = [s for s in walk_local(f.node) if isinstance(s, ast.Assign) and unparse(s.targets[0]).startswith("block_mapper[")]
     clones = [c for c in calls_in(f.node) if call_attr(c) == "clone"]
-    if not bm_stores or not clones:
+    bulk = [s for s in walk_local(f.node) if isinstance(s, ast.Expr) and isinstance(s.value, ast.Call) and unparse(s.value.func) == "block_mapper.update" and s.value.args and isinstance(s.value.args[0], ast.Call) and call_attr(s.value.args[0]) == "zip" and s.value.args[0].args and unparse(s.value.args[0].args[0]) == "self.blocks"]
+    if (not bm_stores and not bulk) or not clones:
         raise AnalysisError(f"{f.fq}: block registration or op.clone not found")
     reg_loop = [w for w in walk_local(f.node) if isinstance(w, ast.For) and any(s in w.body for s in bm_stores)]
-    if not reg_loop or unparse(reg_loop[0].iter) != "self.blocks":
+    if not bulk and (not reg_loop or unparse(reg_loop[0].iter) != "self.blocks"):
         r3.fail(f.fq + ":blocks", Finding("C02.R3", f.fq, "blocks-registration", "block_mapper is not filled by a loop over all self.blocks", f.loc))
     else:
-        head = cfg.node_of(reg_loop[0])
-        ns = {cfg.node_of(s) for s in bm_stores}
+        head = cfg.node_of(bulk[0]) if bulk else cfg.node_of(reg_loop[0])
+        ns = {cfg.node_of(s) for s in bm_stores} | {cfg.node_of(s) for s in bulk}
         bad = False
         for c in clones:
             nc = cfg.node_of(c)
